@@ -22,8 +22,9 @@ struct TMap {
     step: i64,
 }
 impl TMap {
+    /// rank 1 maps to `base` itself, so that a map can start exactly at i64::MIN
     fn t(&self, r: i64) -> Time {
-        Time(self.base + r * self.step)
+        Time(self.base + (r - 1) * self.step)
     }
 }
 
@@ -69,7 +70,7 @@ fn eval(term: &Value, vals: &[f32]) -> f32 {
         }
         "sub" => vals[args[0]] - vals[args[1]],
         "div" => vals[args[0]] / vals[args[1]],
-        "pow" => vals[args[0]].powf(vals[args[1]]),
+        "pow" => config_powf(vals[args[0]], vals[args[1]]),
         "default" | "const" => vals[DEFAULT_IDX],
         o => panic!("unknown op {o}"),
     }
